@@ -32,6 +32,7 @@ QUICK_SEEDS = {
     'C01': 60000, 'C02': 60000, 'C03': 60000, 'C04': 60000, 'C05': 60000,
     'C06': 40000, 'C07': 60000, 'C08': 30000, 'C09': 60000, 'C10': 50000,
     'C11': 25000, 'C12': 50000, 'C13': 25000, 'C14': 40000,
+    'C15': 40000, 'C16': 40000, 'C17': 40000, 'C18': 40000, 'C19': 40000,
 }
 CHUNK = 250
 
@@ -61,10 +62,14 @@ def _init_worker():
     faulthandler.enable()
 
 
+def engine_for(prop):
+    from . import cases, hcases
+    return hcases if prop in hcases.HISTORY_PROPS else cases
+
+
 def work(prop, seed_start, count, max_keep=3):
     """evaluate `count` seeds; returns a picklable summary"""
-    from . import cases
-    from .digest import run_digest
+    cases = engine_for(prop)
     out = {"evaluations": 0, "runs": 0, "seeds": count, "stats": {},
            "shapes": set(), "nontrivial_shapes": set(), "violations": {},
            "errors": [], "samples": [], "vtime": 0.0, "nontrivial": 0}
@@ -85,7 +90,7 @@ def work(prop, seed_start, count, max_keep=3):
                         out["nontrivial_shapes"].add(res.shape)
                         if len(out["samples"]) < 2 and res.run is not None:
                             out["samples"].append(
-                                sample_of(seed, idx, case, res))
+                                cases.sample(seed, idx, case, res))
                     for v in res.violations:
                         slot = out["violations"].setdefault(
                             v.sig, {"count": 0, "first": []})
@@ -94,8 +99,7 @@ def work(prop, seed_start, count, max_keep=3):
                             slot["first"].append({
                                 "seed": seed, "index": idx, "case": case,
                                 "violation": v.as_dict(),
-                                "digest": run_digest(res.run)
-                                if res.run is not None else None})
+                                "digest": cases.digest(res)})
             except Exception:                           # pylint: disable=W0703
                 out["errors"].append(
                     "seed {}: {}".format(seed, traceback.format_exc()))
@@ -104,20 +108,6 @@ def work(prop, seed_start, count, max_keep=3):
     finally:
         faulthandler.cancel_dump_traceback_later()
     return out
-
-
-def sample_of(seed, idx, case, res):
-    run = res.run
-    base = run.knobs['base']
-    return {
-        "seed": seed, "case_index": idx, "spec": compact(case['spec']),
-        "knobs": case['knobs'], "aux": case['aux'],
-        "outcome": [run.outcome, repr(run.value)[:80]],
-        "history": ["%d t=%g %s %s %s" % (s, t - base, k, n,
-                                           p if isinstance(p, str) else '')
-                    for s, t, k, n, p in run.events[:40]],
-        "violations": [v.as_dict() for v in res.violations][:3],
-    }
 
 
 def compact(node):
@@ -140,13 +130,12 @@ def compact(node):
 # ------------------------------------------------------------------ determinism
 
 def digests_for(prop, seeds):
-    from . import cases
-    from .digest import run_digest
+    cases = engine_for(prop)
     out = []
     for seed in seeds:
         for case in cases.gen_cases(prop, seed):
             res = cases.evaluate_case(prop, case)
-            out.append(run_digest(res.run) if res.run is not None else "-")
+            out.append(cases.digest(res) or "-")
             break
     return out
 
@@ -201,8 +190,7 @@ def slug(text):
 
 
 def write_replay(prop, entry, minimised, spent, tier):
-    from . import cases
-    from .digest import run_digest
+    cases = engine_for(prop)
     res = cases.evaluate_case(prop, minimised)
     viol = None
     for v in res.violations:
@@ -213,18 +201,15 @@ def write_replay(prop, entry, minimised, spent, tier):
         viol_d = entry["violation"]
     else:
         viol_d = viol.as_dict()
-    run = res.run
     doc = {
         "property": prop, "clause": viol_d["clause"], "site": viol_d["site"],
         "msg": viol_d["msg"], "seed": entry["seed"],
         "case_index": entry["index"], "tier": tier,
         "minimisation_runs": spent,
         "case": minimised,
-        "digest": run_digest(run) if run is not None else None,
+        "digest": cases.digest(res),
         "original_case": entry["case"],
-        "events": [[s, t, k, n, p if isinstance(p, (str, type(None)))
-                    else type(p).__name__]
-                   for s, t, k, n, p in (run.events if run else [])],
+        "events": cases.events(res),
         "how_to_replay": "./check {} --replay <this file>".format(prop),
     }
     os.makedirs(os.path.join(ROOT, 'replays'), exist_ok=True)
@@ -239,13 +224,12 @@ def write_replay(prop, entry, minimised, spent, tier):
 
 def replay(prop, path, quiet=False):
     """re-run a replay file; returns (reproduced, digest_matches, text)"""
-    from . import cases
-    from .digest import run_digest
     doc = json.load(open(path))
     prop = doc.get("property", prop)
+    cases = engine_for(prop)
     res = cases.evaluate_case(prop, doc["case"])
     hit = [v for v in res.violations if v.clause == doc["clause"]]
-    digest = run_digest(res.run) if res.run is not None else None
+    digest = cases.digest(res)
     same = digest == doc.get("digest")
     if not quiet:
         for v in res.violations:
@@ -270,7 +254,7 @@ def verify_replay_fresh(prop, path):
 
 def run_check(prop, tier, jobs, budget, verif_seed):
     from . import lib                                   # noqa: F401
-    from . import cases
+    cases = engine_for(prop)
     t0 = clock.real_time()
     seed0 = seed_base(prop, tier, verif_seed)
     # --- determinism sample
@@ -335,7 +319,7 @@ def run_check(prop, tier, jobs, budget, verif_seed):
                     mine["count"] += slot["count"]
                     mine["first"] = sorted(
                         mine["first"] + slot["first"],
-                        key=lambda e: (len(json.dumps(e["case"]["spec"])),
+                        key=lambda e: (cases.case_size(e["case"]),
                                        e["seed"]))[:3]
                 # stop feeding once a new violation is known (quick exit)
                 if more() and not total["errors"]:
@@ -385,9 +369,8 @@ def run_check(prop, tier, jobs, budget, verif_seed):
 
 
 def minimise_entry(prop, clause, entry):
-    from . import cases
     from .shrink import minimise
-    return minimise(prop, clause, entry["case"], cases.evaluate_case)
+    return minimise(prop, clause, entry["case"], engine_for(prop))
 
 
 RULES = {
@@ -415,6 +398,14 @@ RULES = {
            "exit or cancelled a straggling handler",
     'C14': "a run counts when a job was seen scheduled-but-not-running at a "
            "quiescent point, or a job was cancelled",
+    'C15': "a history counts when check_cycles() was asked about at least "
+           "one cyclic closed scheduler",
+    'C16': "a history counts when sanitize() was called on a tree that had a "
+           "dangling requirement",
+    'C17': "a history counts when a query with several start jobs was made",
+    'C18': "a history counts when at least two surgery calls were applied one "
+           "after another",
+    'C19': "a history counts when it has at least 8 construction statements",
 }
 
 FAULT_KEYS = ('job_raised', 'job_cancelled', 'timeouts_fired',
@@ -428,6 +419,11 @@ def write_evidence(prop, tier, verif_seed, seed0, seed_end, total, n_shapes,
                    n_nt, wall, det_detail, reported, known_hit):
     manifest_level = level_of(prop)
     stats = total["stats"]
+    from .hcases import HISTORY_PROPS
+    if prop in HISTORY_PROPS:
+        return write_evidence_b(prop, tier, verif_seed, seed0, seed_end,
+                                total, n_shapes, n_nt, wall, det_detail,
+                                reported, known_hit, manifest_level)
     cov = {
         "evaluations": total["evaluations"],
         "distinct_nontrivial": n_nt,
@@ -471,6 +467,64 @@ def write_evidence(prop, tier, verif_seed, seed0, seed_end, total, n_shapes,
     os.makedirs(os.path.join(ROOT, 'evidence'), exist_ok=True)
     path = os.path.join(ROOT, 'evidence', prop + '.json')
     with open(path, 'w') as out:
+        json.dump(doc, out, indent=1, default=str)
+
+
+def write_evidence_b(prop, tier, verif_seed, seed0, seed_end, total, n_shapes,
+                     n_nt, wall, det_detail, reported, known_hit, level):
+    stats = total["stats"]
+    cov = {
+        "evaluations": total["evaluations"],
+        "distinct_nontrivial": n_nt,
+        "rule": "one case = one seeded history of 5-30 graph/construction API "
+                "calls (objects named, arguments arbitrarily nested) executed "
+                "step by step against the library and against the reference "
+                "model, under a seeded set iteration order; distinct = "
+                "distinct (history text, outcome log); non-trivial: "
+                + RULES[prop],
+        "samples": total["samples"][:4],
+        "seeds": {"first": seed0, "last": seed_end - 1,
+                  "count": total["seeds"]},
+        "histories_per_hour": int(total["evaluations"] / wall * 3600)
+        if wall else 0,
+        "api_calls_executed": stats.get("api_calls", 0),
+        "simulated_seconds": 0.0,
+        "nontrivial_cases": total["nontrivial"],
+        "distinct_histories": n_shapes,
+        "faults_fired": {"none": 0},
+        "faults_note": "no fault dimension exists for this property: only "
+                       "histories of calls and set iteration order are "
+                       "explored (DESIGN.md section 6)",
+        "probes": {k: v for k, v in sorted(stats.items())},
+        "determinism": det_detail,
+        "components": {
+            "real_code": ["asynciojobs graph/construction API (Sequence, "
+                          "requires, add/update/remove, sanitize, "
+                          "check_cycles, topological_order, list, neighbour "
+                          "queries, bypass_and_remove, keep_only*)",
+                          "asyncio + SimLoop for the final run() of C19 "
+                          "histories"],
+            "stubbed": ["jobs are instantaneous scripted jobs with a seeded "
+                        "__hash__ (controls set iteration order)",
+                        "reference model: sim/hmodel.py"]},
+        "violations_reported": reported,
+        "known_findings_seen": known_hit,
+        "exhaustive": False,
+    }
+    doc = {
+        "property_id": prop, "tier": tier, "seed": verif_seed,
+        "level": level, "coverage": cov,
+        "assumptions": [
+            "sampling, not enumeration: graphs of up to ~15 jobs, 3 levels",
+            "the reference model (sim/hmodel.py) states the documented "
+            "semantics correctly",
+            "a job belongs to at most one scheduler (documented "
+            "precondition); histories respect it"],
+        "wall_s": round(wall, 2),
+        "violations": len(reported),
+    }
+    os.makedirs(os.path.join(ROOT, 'evidence'), exist_ok=True)
+    with open(os.path.join(ROOT, 'evidence', prop + '.json'), 'w') as out:
         json.dump(doc, out, indent=1, default=str)
 
 
